@@ -75,6 +75,45 @@ CHECKS = {
         note=LEVEL_NOTE_COMMON + "Axioms: none. binary64 via Coq.Floats.SpecFloat (pure Z arithmetic); NaN payloads not represented. '= 100 when all satisfy' is a bounded evaluation (<= 200 members), not a theorem.",
         technique="Coq proof (list-level counting laws, induction over verification histories) + differential correspondence on boundary floats + law checker as oracle",
         design="§7 C18"),
+    "C01": dict(
+        text="Theorem (Coq, every graph of singleton causaloids on which the traversal terminates, every id / function / observation assignment, id or index routing, every live start): "
+             "reasoning returns true exactly when every causaloid reachable from the start evaluates true, false when one is false and none errors, and error-or-false (never true) when a "
+             "reachable causal function errors. The model is the code's traversal (children in ascending index order, no visited set, stop index = node count); it is tied to the code by "
+             "comparing verdict, the exact sequence of causal-function calls with their observations, and is_active of every node; the oracle is an independent closure-based conjunction.",
+        note=LEVEL_NOTE_COMMON + "Axioms: none. Termination (acyclicity) enters as 'the run does not exhaust its fuel'. The explicit iterator stack is modelled as recursion.",
+        technique="Coq proof (induction on the traversal, reachability closure) + differential correspondence incl. call log + extracted reachability oracle",
+        design="§7 C01"),
+    "C02": dict(
+        text="Theorems (Coq, every nesting tree of singletons / collections / graphs, any depth and fan-out, every observation vector): a wrapping causaloid evaluates as direct reasoning "
+             "over what it wraps (collection: positional data, graph: from the root), in every position; for every run the verdict is the conjunction of the singleton verdicts it "
+             "evaluated (true: all true; false: last false, all earlier true); a contextual singleton is evaluated against exactly its own context. Correspondence on generated trees to "
+             "depth 4 incl. the call log; oracles: trace-conjunction and wrapped == direct on the implementation's own output.",
+        note=LEVEL_NOTE_COMMON + "Axioms: none. Causal functions are a fixed family of fn items whose verdict is decided by the observation; relational oracles are Python.",
+        technique="Coq proof (induction on fuel over a task-indexed evaluator of the nested inductive model) + differential correspondence incl. call log",
+        design="§7 C02"),
+    "C10": dict(
+        text="Theorems (Coq): given the path the graph's shortest-path routine returns, reasoning evaluates exactly the causaloids of the path prefix up to and including the first non-true "
+             "verdict, in path order, each on its routed observation; the result is the conjunction; all other activation cells are unchanged; the four error cases. The path itself is "
+             "validated per input by C15's proved optimality checker; the extracted checker recomputes the whole call on the model with that path and compares verdict, call log and activation.",
+        note=LEVEL_NOTE_COMMON + "Axioms: none. petgraph astar not modelled (validated per input, C15).",
+        technique="Coq proof (induction over the path) + proved path checker (C15) + model recomputation on the returned path as oracle",
+        design="§7 C10"),
+    "C11": dict(
+        text="Theorems (Coq, every call on every model and state, hence every history): after a run every activation cell holds the verdict of the most recent non-erroring evaluation of "
+             "its causaloid in that run and is unchanged when it was not evaluated (or only errored); wrappers are active iff a member is; number / percent / all-active and the "
+             "active / inactive filters are recounts. Correspondence after every call of histories with varying data (flags of every causaloid, all aggregates, call log); oracles: "
+             "recount laws on the implementation's own flags, and the singleton law whenever the implementation evaluated the same sequence as the model.",
+        note=LEVEL_NOTE_COMMON + "Axioms: none. Distinct causaloids have distinct activation cells (clones share; the generator builds distinct ones).",
+        technique="Coq proof (log/activation invariant by induction on fuel) + differential correspondence after every call + recount oracle",
+        design="§7 C11"),
+    "C12": dict(
+        text="Theorems (Coq): every order-insensitive answer (counts, all-predicates, percentages, filters as multisets) is invariant under permutation of the item list; verdicts do not depend "
+             "on the activation store or on earlier calls (repetition, rebuilt or cloned models give the same verdict). Checks: identical items in slice / Vec / VecDeque / BTreeMap / HashMap "
+             "for all four protocols against one model (ordered: identical incl. order; HashMap: id-sorted), pairwise comparison of the ordered containers, every call repeated, every model "
+             "built twice, causal graphs also reasoned on a clone.",
+        note=LEVEL_NOTE_COMMON + "Axioms: none. HashMap iteration order is removed by sorting; order-sensitive answers on HashMap are outside the property.",
+        technique="Coq proof (permutation invariance, purity of the evaluator) + cross-container / repetition / rebuild / clone differential runs",
+        design="§7 C12"),
 }
 
 ALL = [f"C{n:02d}" for n in range(1, 20)]
